@@ -37,7 +37,7 @@ ASSUMPTIONS = [
 
 
 def floors(tier):
-    return {"clean": 800, "garbage": 800, "nontrivial": 300, "has-rejected": 800, "pipe-like-source": 300, "handler=object": 300, "handler=truthy": 300, "handler=method": 300}
+    return {"clean": 800, "garbage": 800, "nontrivial": 300, "has-rejected": 800, "pipe-like-source": 300, "handler=object": 300, "handler=truthy": 200, "handler=true": 200, "handler=method": 200}
 
 
 def plan(tier, seed):
@@ -97,6 +97,8 @@ def trace(data, opts, qe, handler=True):
             h = "method"  # (created in the call below: no local name may keep it alive)
         elif hk == "truthy":
             h = lambda e: (events.append(("err", e)), e)[1]  # noqa: E731 - returns something true
+        elif hk == "true":
+            h = lambda e: (events.append(("err", e)), True)[1]  # noqa: E731 - "handled, carry on"
         else:
             h = lambda e: events.append(("err", e))  # noqa: E731
     stream = S.pipe_stream(data) if opts.get("_pipe") else io.BytesIO(data)
@@ -248,7 +250,7 @@ OPTS = st.fixed_dictionaries({
     "validate": st.sampled_from([1, 1, 0]),
     "parsebitfield": st.sampled_from([1, 0]),
     "protfilter": st.sampled_from([7, 7, 7, 3]),
-    "_handler": st.sampled_from(["function", "object", "truthy", "method"]),
+    "_handler": st.sampled_from(["function", "object", "truthy", "true", "method"]),
     "_pipe": st.sampled_from([False, False, True]),
 })
 
